@@ -55,7 +55,7 @@ def observe(registry, marked, inc, exc, files, *, check_fns=True, check_kw=True,
     }
 
 
-WORDS = [b"alpha", b"Beta", b"x y", b"1234", b"a-b", b"\xe9t\xe9", b"alpha", b"ALPHA"]
+WORDS = [b"alpha", b"Beta", b"x y", b"1234", b"a-b", b"\xe9t\xe9", b"alpha", b"ALPHA", b"#comment", b"; note", b"//x", b" lead", b"trail "]
 
 
 def random_dir(rng: random.Random, root: str) -> None:
@@ -128,10 +128,18 @@ def run(prop: str, tier: str) -> int:
         reg, failed = attempt(build_registry, "", iter(inc) if inc is not None else None, iter(exc) if exc is not None else None)
         recs.append(dict(observe(reg, marked, inc, exc, shipped_files, failed=failed), origin="build_registry(include, exclude)"))
     # keyword directory layouts
+    cwd = os.getcwd()
     for i in range(60 if tier == "quick" else 1500):
         d = os.path.join(work, f"dir{i}")
         random_dir(rng, d)
         files = read_dir(d)
+        if i % 3 == 1:      # the directory given as a relative path (as `-k kw` on the command line would)
+            os.chdir(work)
+            try:
+                reg, failed = attempt(get_keywords, rng.choice([f"dir{i}", f"./dir{i}", f"dir{i}/"]))
+            finally:
+                os.chdir(cwd)
+            recs.append(dict(observe(reg, marked, None, None, files, check_fns=False, failed=failed), origin="get_keywords(relative dir)"))
         reg, failed = attempt(get_keywords, d)
         recs.append(dict(observe(reg, marked, None, None, files, check_fns=False, failed=failed), origin="get_keywords(dir)"))
         if i % 5 == 0:
